@@ -19,7 +19,7 @@ RULE = (
     "actions after warm-up (in-loop); distinct by (kind, bounds, seed)"
 )
 REQUIRED = {
-    "exploration_actions_checked": 1000, "target_actions_checked": 1000,
+    "exploration_actions_checked": 400, "target_actions_checked": 400,
     "noise_invariance_samples": 300, "tanh_extreme_outputs": 50,
     "env_actions_checked": 200, "cem_candidates_checked": 100,
 }
